@@ -85,6 +85,9 @@ func runOne10ColMode(i int, cfg *Config, seed int64, reload bool) (obs Obs10) {
 		if len(cfg.Deps[x]) > 0 {
 			body["deps"] = cfg.Deps[x]
 		}
+		if rng.Intn(2) == 0 {
+			body["watch"] = true
+		}
 		exts[x] = body
 		svcExts = append(svcExts, x)
 	}
